@@ -253,9 +253,9 @@ Definition elem_check (mn : string) (n : nat) (two5 two3 two8 twoxz : bool) : re
   else if mn =? "sq" then (if (10 <=? n)%nat then one else Err EIndex)
   else if mn =? "gq" then one
   else if mem mn ["tx";"ty";"tz"] then (if (n =? 5)%nat || (n =? 6)%nat then one else Err EValue)
-  else if mem mn ["x";"z"] then
+  else if mem mn ["x";"y";"z"] then
     (if (n =? 2)%nat then one else if (n =? 4)%nat then cnt twoxz else Err ENotImplemented)
-  else if mem mn ["y";"t"] then Err EKey            (* no mcnp2cad entry *)
+  else if mn =? "t" then Err EKey                   (* no mcnp2cad entry *)
   else if mn =? "c" then (if (n =? 7)%nat then one else Err EType)
   else if mn =? "k" then (if (7 <=? n)%nat && (n <=? 9)%nat then cnt ((8 <=? n)%nat && two8) else Err EType)
   else Err EValue.
@@ -459,31 +459,6 @@ Section Num.
         end
     end.
 
-  (* --- parse_trcl_kw: (length of the tuple, entries left as strings?) --- *)
-  Definition parse_trcl (star : bool) (trs : list (Z * nat)) (l : list tok)
-    : res ((nat * bool) * list tok) :=
-    let '(ps, rest) := span numeric_lead l in
-    let n := List.length ps in
-    match ps with
-    | [p] =>
-        match py_int (tsp p) with
-        | None => Err EValue
-        | Some id =>
-            match lookup id trs with
-            | None => Err EKey
-            | Some k => Ok ((Nat.min k 12, false), rest)
-            end
-        end
-    | _ =>
-        if (n =? 3)%nat then
-          (if forallb (fun p => float_lit (tsp p)) ps then Ok ((12%nat, false), rest) else Err EValue)
-        else if star then
-          (if forallb (fun p => float_lit (tsp p)) ps
-           then Ok ((if (n <=? 3)%nat then n else Nat.min n 12, false), rest)
-           else Err EValue)
-        else Ok ((n, true), rest)
-    end.
-
   (* --- parse_fill_kw --- *)
   Record fillres := mkFill {
     f_bounds : option bounds;
@@ -503,10 +478,16 @@ Section Num.
         end
     | _ =>
         if (n =? 3)%nat then Ok (12%nat, rest)
-        else if star then do k <- norm_tr_len (firstn 12 (map tval ps)); Ok (k, rest)
         else if (n =? 0)%nat then Ok (0%nat, rest)
+        else if star then do k <- norm_tr_len (map tval ps); Ok (k, rest)
         else do k <- norm_tr_len (map tval ps); Ok (k, rest)
     end.
+
+  (* --- parse_trcl_kw: since the repair it treats its parameters exactly like
+         the transformation part of parse_fill_kw (floats, TR number, three
+         entries, starred or not through normalize_transform) --- *)
+  Definition parse_trcl (star : bool) (trs : list (Z * nat)) (l : list tok)
+    : res (nat * list tok) := fill_params star trs l.
 
   Definition has_colon (t : tok) : bool := contains_char ":" (tsp t).
 
@@ -535,7 +516,7 @@ Section Num.
   (* --- parse_keywords --- *)
   Record kws := mkKws {
     k_imp : option T; k_fill : option fillres; k_lat : option Z;
-    k_trcl : option (nat * bool); k_u : option Z }.
+    k_trcl : option nat; k_u : option Z }.
   Definition kws0 : kws := mkKws None None None None None.
 
   Fixpoint parse_kw (fuel : nat) (trs : list (Z * nat)) (l : list tok) (k : kws) : res kws :=
@@ -597,7 +578,7 @@ Section Num.
 
   Record cellsum := mkCell {
     cs_imp : T; cs_u : Z; cs_fill : option fillid; cs_filltr : nat;
-    cs_lat : option Z; cs_trcl : option (nat * bool) }.
+    cs_lat : option Z; cs_trcl : option nat }.
 
   Definition to_fillid (k : kws) (lat_opt : option bounds) : res (option fillid) :=
     match k_fill k with
@@ -645,7 +626,7 @@ Section Num.
     Ok (mkCell imp (match k_u k with Some u => u | None => 0%Z end) fid
                (match k_fill k with Some fr => f_trlen fr | None => 0%nat end)
                (k_lat k)
-               (match k_trcl k with Some (0%nat, _) => None | x => x end)).
+               (match k_trcl k with Some 0%nat => None | x => x end)).
 
   (* ==================================================================== *)
   (* 7. The whole run, in the order of main.conversion                     *)
@@ -693,19 +674,31 @@ Section Num.
 
   Definition smap := list (Z * (string * (nat * nat))).
 
-  (* apply a transformation of length k to the literals of a cell: the first
-     literal decides *)
-  Definition transform_lits (sm : smap) (k : nat) (strs : bool) (lits : list lit) : res unit :=
+  (* pot_transform over the literals of a cell, in order: CollectionDict lookup
+     (KeyError; a facet outside 1..number of MCNP sub-surfaces is an
+     IndexError -- facet 0 included, unlike pot_expand_surfs), then
+     transformation() of every sub-surface, which needs exactly 12 entries *)
+  Definition sub_check (nm : nat) (f : option nat) : res unit :=
+    match f with
+    | None => Ok tt
+    | Some k => if (k =? 0)%nat || (nm <? k)%nat then Err EIndex else Ok tt
+    end.
+
+  Definition transform_one (k : nat) (mn : string) : res unit :=
+    if (k =? 12)%nat then Ok tt
+    else if quadric mn || mem mn ["rec"; "ell"] then Err EUnmodelled
+    else Err EValue.
+
+  Fixpoint transform_lits (sm : smap) (k : nat) (lits : list lit) : res unit :=
     match lits with
     | [] => Ok tt
-    | l0 :: _ =>
+    | l0 :: r =>
         match lookup (l_surf l0) sm with
         | None => Err EKey
-        | Some (mn, _) =>
-            if quadric mn then Err EUnmodelled
-            else if negb (k =? 12)%nat then Err EValue
-            else if strs then Err EUnmodelled
-            else Ok tt
+        | Some (mn, (nm, _)) =>
+            do tt <- sub_check nm (l_facet l0);
+            do tt <- transform_one k mn;
+            transform_lits sm k r
         end
     end.
 
@@ -721,8 +714,7 @@ Section Num.
     | (c, cs) :: r =>
         do tt <- match cs_trcl cs with
                 | None => Ok tt
-                | Some (k, strs) =>
-                    do tt <- transform_lits sm k strs (c_lits c); all_lits_known sm (c_lits c)
+                | Some k => transform_lits sm k (c_lits c)
                 end;
         stage_trcl sm r
     end.
@@ -758,12 +750,16 @@ Section Num.
                           if existsb (fun u => match u with None => true | _ => false end) univs
                           then Err EUnmodelled
                           else if existsb univ_nonzero univs then
+                            do tt <- (match cs_trcl cs with
+                                      | Some _ => all_lits_known sm (c_lits c)
+                                      | None => transform_lits sm 12 (c_lits c)
+                                      end);
                             if (0 <? cs_filltr cs)%nat && (cs_filltr cs <? 12)%nat then Err EValue
                             else match cs_trcl cs with
-                                 | Some (k, strs) =>
+                                 | Some k =>
                                      if (0 <? cs_filltr cs)%nat then Ok tt
                                      else if (k <? 12)%nat then Err EValue
-                                     else if strs then Err EUnmodelled else Ok tt
+                                     else Ok tt
                                  | None => Ok tt
                                  end
                           else Ok tt
@@ -778,23 +774,31 @@ Section Num.
   Definition fillers (u : Z) (cells : list (cellc * cellsum)) : list (cellc * cellsum) :=
     filter (fun p => (cs_u (snd p) =? u)%Z) cells.
 
+  (* the literals of a cell once stage_trcl has run: a TRCL cell refers to
+     freshly made surfaces, without facet selectors *)
+  Definition eff_lits (p : cellc * cellsum) : list lit :=
+    match cs_trcl (snd p) with
+    | Some _ => map (fun l => mkLit (l_surf l) None) (c_lits (fst p))
+    | None => c_lits (fst p)
+    end.
+
   Fixpoint stage_fill (sm : smap) (all cells : list (cellc * cellsum)) : res unit :=
     match cells with
     | [] => Ok tt
     | (c, cs) :: r =>
         do tt <- match cs_fill cs, cs_lat cs with
                 | Some (FUniv u), None =>
-                    let k := if (0 <? cs_filltr cs)%nat then Some (cs_filltr cs, false) else cs_trcl cs in
+                    let k := if (0 <? cs_filltr cs)%nat then Some (cs_filltr cs) else cs_trcl cs in
                     match k with
                     | None => Ok tt
-                    | Some (k, strs) =>
-                        if (k =? 12)%nat && negb strs then Ok tt
-                        else if negb (cs_u cs =? 0)%Z then Err EUnmodelled
-                        else match filter (fun p => negb (List.length (c_lits (fst p)) =? 0)%nat)
-                                          (fillers u all) with
-                             | [] => Ok tt
-                             | (fc, _) :: _ => transform_lits sm k strs (c_lits fc)
-                             end
+                    | Some k =>
+                        if negb (cs_u cs =? 0)%Z
+                        then (if (k =? 12)%nat then Ok tt else Err EUnmodelled)
+                        else (fix go (l : list (cellc * cellsum)) : res unit :=
+                                match l with
+                                | [] => Ok tt
+                                | fc :: r => do tt <- transform_lits sm k (eff_lits fc); go r
+                                end) (fillers u all)
                     end
                 | _, _ => Ok tt
                 end;
